@@ -120,8 +120,15 @@ TrCleanup == /\ IsEv("cleanup") /\ S_Cleanup(Sess) /\ active' = Ev.active
 \* Deviation switch VMD_NO_VERIFY (Verify = FALSE, finding F16): a hostile module is being executed; the behaviour
 \* of that session is undefined from here on - its events are skipped, and the process may be gone afterwards.
 Undefined(c) == ~Verify /\ sst[c] = "exec" /\ loaded[c] = "hostile"
-TrUndefined == /\ i <= Len(TraceLog) /\ Ev.e \notin {"Reset", "accept"} /\ Undefined(Sess)
+TrUndefined == /\ i <= Len(TraceLog) /\ Ev.e \notin {"Reset", "accept", "close", "cleanup"} /\ Undefined(Sess)
                /\ Consume /\ UNCHANGED <<vars, fdof>>
+\* ... but if the process survives, the session still gives its fd back and is still counted out
+TrUndefClose == /\ IsEv("close") /\ Undefined(Sess) /\ OwnFd /\ sopen[Sess]
+                /\ sopen' = [sopen EXCEPT ![Sess] = FALSE] /\ Consume
+                /\ UNCHANGED <<scenvars, clientvars, sst, rpos, loaded, pos, flushed, sent, ndel, stat, up, active, crcflag, crcpc, fdof>>
+TrUndefCleanup == /\ IsEv("cleanup") /\ Undefined(Sess) /\ ~sopen[Sess]
+                  /\ sst' = [sst EXCEPT ![Sess] = "done"] /\ active' = active - 1 /\ active' = Ev.active /\ Consume
+                  /\ UNCHANGED <<scenvars, clientvars, rpos, loaded, pos, flushed, sent, ndel, sopen, stat, up, crcflag, crcpc, fdof>>
 
 \* end of a round: every session has been cleaned up and the counter is back to zero (unless the process died)
 Quiescent == (active = 0 /\ \A c \in Clients : sst[c] \in {"none", "done"}) \/ (\E c \in Clients : Undefined(c))
@@ -140,7 +147,8 @@ TrDone   == i > Len(TraceLog) /\ UNCHANGED <<vars, tvars>>        \* accepted: s
 
 TraceNext == \/ TrAccept \/ TrEnter \/ TrHdr \/ TrHdrFail \/ TrPayload \/ TrPayloadFail \/ TrDeser \/ TrExecBegin
              \/ TrFrameProduce \/ TrFrameWrite \/ TrExecEndProduce \/ TrExecEnd \/ TrVerifyFail \/ TrErr \/ TrRtErr
-             \/ TrExit \/ TrPong \/ TrStatusRead \/ TrStatusSend \/ TrClose \/ TrCleanup \/ TrUndefined
+             \/ TrExit \/ TrPong \/ TrStatusRead \/ TrStatusSend \/ TrClose \/ TrCleanup
+             \/ TrUndefined \/ TrUndefClose \/ TrUndefCleanup
              \/ TrReset \/ TrDone
 TraceSpec == TraceInit /\ [][TraceNext]_<<vars, tvars>>
 
